@@ -959,10 +959,19 @@ def do_slice(I, obj, sl, env):
         return I.ops.opaque_str("slice")
     if isinstance(obj, SList):
         rec = I.st.lists[obj.lid]
+        lo = I.concrete_int(I.eval(sl.lower, env)) if sl.lower else None
+        hi = I.concrete_int(I.eval(sl.upper, env)) if sl.upper else None
         if rec.kind == "conc":
-            lo = I.concrete_int(I.eval(sl.lower, env)) if sl.lower else None
-            hi = I.concrete_int(I.eval(sl.upper, env)) if sl.upper else None
             return I.ops.new_conc_list(rec.items[lo:hi])
+        if lo in (None, 0) and hi == 1:
+            # xs[:1] of a symbolic list: the first element if there is one
+            if I.st.branch(I.ops.list_len(obj) > 0):
+                return I.ops.new_conc_list([I.list_index(obj, SInt(z3.IntVal(0)))])
+            return I.ops.new_conc_list([])
+        if lo == 1 and hi is None and rec.kind == "base":
+            g = fresh_int("g")
+            n = I.ops.list_len(obj)
+            return I.ops.new_derived([Seg(obj.lid, tuple(obj.idx), n, g, g >= 1, I.elem_value(obj.lid, tuple(obj.idx) + (g,)))])
     raise Unsupported("slice")
 
 
@@ -1050,8 +1059,26 @@ def v_items(I, a, k):
     raise Unsupported("items() of a dynamic value")
 
 
+vlist_snoc = z3.Function("vlist_snoc", z3.IntSort(), VAL, z3.IntSort())
+
+
 def v_append(I, a, k):
-    raise Unsupported("append on a dynamic value")
+    """list.append on a dynamic list value: the wrapper now denotes old ++ [x] (same Python object)."""
+    v, x = a
+    t = v.t
+    if I.st.branch(z3.Not(VAL.is_VList(t))):
+        I.raise_builtin("AttributeError", "append")
+    l = VAL.vl(t)
+    n = vlist_len(l)
+    I.st.assume(n >= 0)
+    xv = I.ops.to_val(x)
+    nl = vlist_snoc(l, xv)
+    j = z3.Int(fresh_name("j"))
+    I.st.assume(vlist_len(nl) == n + 1)
+    I.st.assume(vlist_get(nl, n) == xv)
+    I.st.assume(z3.ForAll([j], z3.Implies(z3.And(j >= 0, j < n), vlist_get(nl, j) == vlist_get(l, j))))
+    v.t = VAL.VList(nl)
+    return SNone
 
 
 def v_startswith(I, a, k):
